@@ -41,8 +41,8 @@ def main():
         if m.get("regex"):
             import re as _re
             new = src
-            for pat, rep in m["regex"]:
-                new = _re.sub(pat, rep, new)
+            for i_, (pat, rep) in enumerate(m["regex"]):
+                new = _re.sub(pat, rep, new, count=m.get("regex_count", {}).get(i_, 0), flags=_re.M)
             m = dict(m, old=src, new=new)
         if src.count(m["old"]) != 1:
             print("%-40s SKIP: anchor text occurs %d times" % (mid, src.count(m["old"])))
